@@ -30,6 +30,7 @@ RULE = ('tables.rand_spec tables (1-5 x 1-5, every layout recipe: dense/CSR/CSC/
         'dyadic, signed, >6-decimal, sub-1e-6, subnormal and huge doubles; IDs, metadata keys/values, table id, type, '
         'generated_by drawn from an alphabet with quote, backslash, every control character, DEL, Latin-1, BMP '
         'edges, non-BMP; metadata kinds none/text/num/tax/nested/null/numpy scalars/tuples; naive creation dates; '
+        'six tables per run with an axis of 257-300 IDs (1 x 300, 2 x 258, 300 x 2, 258 x 1, ...), sparse; '
         'every document written plain and gzip-compressed under names that do not follow the compression (x.biom, '
         'x.json, x.json.gz, x.gz, x.GZ, x, x.txt); '
         'plus a contract test of repr(float)/float() on 20000 doubles (random bit patterns, subnormals, powers of '
@@ -596,8 +597,35 @@ def gen_empty_axis(rng):
     return c
 
 
+LARGE_SHAPES = [(1, 300), (2, 258), (300, 2), (258, 1), (3, 257), (257, 3), (2, 259), (259, 2), (260, 260)]
+
+
+def gen_large(rng, r, c):
+    """a long axis (beyond CPython's cached small integers, 256), sparse so that it stays cheap"""
+    case = gen_case(rng)
+    s = case['spec']
+    s['oids'] = ['o%d' % i for i in range(r)]
+    s['sids'] = ['s%d' % i for i in range(c)]
+    s['mat'] = [[0.0] * c for _ in range(r)]
+    for _ in range(rng.randint(1, 12)):
+        s['mat'][rng.randrange(r)][rng.randrange(c)] = rand_value(rng, rng.choice(['counts', 'precise', 'tiny']))
+    # the last vector of each axis holds a value, or not
+    if rng.random() < 0.5:
+        s['mat'][r - 1][c - 1] = 2.5
+    mk = rng.choice(['none', 'group'])
+    s['omd'] = None if mk == 'none' else [{'g': 'g%d' % (i % 3)} for i in range(r)]
+    s['smd'] = None if rng.random() < 0.5 else [{'g': 'h%d' % (i % 2)} for i in range(c)]
+    s['layout'] = [rng.choice(['dense', 'csr', 'csc'])]
+    case.update(vkind='large', idkind='plain', mdkind=mk, stored_zero=False, raws=[],
+                files=rng.sample(ALL_FORMS, 2))
+    return case
+
+
 def gen(rng, tier):
     yield {'kind': 'numbers', 'seed': rng.randint(0, 10 ** 9), 'n': 20000}
+    shapes = LARGE_SHAPES[:4] + rng.sample(LARGE_SHAPES[4:], 2) if tier == 'quick' else LARGE_SHAPES * 3
+    for r, c in shapes:
+        yield gen_large(rng, r, c)
     n = 600 if tier == 'quick' else 6000
     for k in range(n):
         yield gen_empty_axis(rng) if k % 20 == 19 else gen_case(rng)
@@ -619,12 +647,14 @@ def classify(c):
         return ['number-contract'] + ['%s=%d' % kv for kv in sorted(STATS.items())]
     s = c['spec']
     tags = ['file:%s:%s' % cf for cf in file_forms(c)] + ['values:' + c.get('vkind', '?'), 'ids:' + c.get('idkind', '?'), 'md:' + c.get('mdkind', '?'),
-            'dims:%dx%d' % (len(s['oids']), len(s['sids'])), 'layout0:' + str((s.get('layout') or ['dense'])[0])]
+            'dims:%dx%d' % (len(s['oids']), len(s['sids'])) if max(len(s['oids']), len(s['sids'])) < 10 else 'dims:large', 'layout0:' + str((s.get('layout') or ['dense'])[0])]
     lay = LAYOUTS.get(json.dumps(c, sort_keys=True))
     if lay:
         tags.append('repr:' + lay)
     if not in_domain(c):
         tags.append('empty-axis')
+    if max(len(s['oids']), len(s['sids'])) > 256:
+        tags.append('long-axis(>256)')
     if all(v == 0 for row in s['mat'] for v in row):
         tags.append('all-zero')
     return tags
